@@ -76,7 +76,13 @@ def run(tier, seed, replay=None):
     def check(rule, text, others, label):
         """others: list of (text-of-constituent-judged-alone, how) that must not be masked."""
         cfg1 = parse_config(BASE_CFG + rule + "\n")
-        v1 = verdict(cfg1, text)
+        d1 = an.analyze(text, cfg1, Path(cwd))
+        v1 = d1.action
+        if v1 == "ask" and d1.reason.startswith("parse error"):
+            # the vendored parser rejects some valid programs (e.g. ";;&" before esac): the whole line is then
+            # asked with or without the rule - nothing is approved, no rule is consulted, nothing to mask
+            out.count("skipped", "parser-rejected")
+            return
         floor = bg.vmax([floor_of(rule, o) for o in others]) if others else "allow"
         out.case([rule, text])
         out.count("shape", label)
